@@ -75,3 +75,5 @@ require (
 replace go.miragespace.co/specter => /repo
 
 replace github.com/avast/retry-go/v4 => ./.third_party/retry-go
+
+replace github.com/tidwall/wal => ./.third_party/wal
